@@ -89,9 +89,15 @@ impl<'a> Printer<'a> {
             T::Interval(n) => {
                 let mut digits = n.to_string();
                 if self.sugar() {
-                    // 0..=6 leading zeros (0 = the plain numeral: its own length classes must
+                    // leading zeros: mostly 0..=6, sometimes up to ≈ 320 (0 = the plain numeral: its own length classes must
                     // not disappear behind the padding)
-                    let pad = (self.tape.next() as usize) % 7;
+                    let pad = match (self.tape.next() as usize) % 16 {
+                        p @ 0..=6 => p,
+                        7..=12 => 1 + (self.tape.next() as usize) % 6,
+                        // long paddings: the numeral's length passes every plausible buffer size
+                        13 | 14 => 7 + (self.tape.next() as usize) % 60,
+                        _ => 67 + (self.tape.next() as usize),
+                    };
                     if pad > 0 {
                         digits = format!("{}{}", "0".repeat(pad), digits);
                         self.used.push("interval-padded");
